@@ -316,6 +316,66 @@ ConcatChildrenProg(a, b, c) ==
 C06Scope ==  IF Scope \notin {"c06"} THEN {} ELSE
  {ConcatChildrenProg(a, b, c) : a \in C06Ys, b \in C06Ys, c \in C06Ys}
 
+-----------------------------------------------------------------------------
+(* ReplaceSource keeps the attribution of its inner source (C06)            *)
+NameRn == <<114, 110>>       \* rn
+SmsDupNames == SmsWith(<<cA, cSP, cA>>,
+                <<Seg(1, 0, <<0, 1, 0, 0>>), Seg(1, 2, <<0, 2, 1, 1>>)>>,
+                <<FileA>>, <<ContentA>>, <<Name0, Name0>>, <<>>)
+(* identity-like: the text is the content of a.js and positions map to      *)
+(* themselves, so that content checks succeed                               *)
+SmsIdent == SmsWith(ContentA,
+                <<Seg(1, 0, <<0, 1, 0, -1>>), Seg(1, 2, <<0, 1, 2, 0>>),
+                  Seg(2, 0, <<0, 2, 0, -1>>)>>,
+                <<FileA>>, <<ContentA>>, <<Name0>>, <<>>)
+(* a user-defined child that announces its names lazily                     *)
+LazyChild ==
+  [k |-> "script", b |-> <<cA, cA, 98, 98, 99, NL>>,
+   ev |-> <<[t |-> "S", i |-> 0, name |-> FileA, c |-> <<ContentA>>],
+            [t |-> "C", x |-> <<<<cA, cA>>>>, gl |-> 1, gc |-> 0, o |-> <<0, 1, 0, -1>>],
+            [t |-> "N", i |-> 0, name |-> Name0],
+            [t |-> "C", x |-> <<<<98, 98>>>>, gl |-> 1, gc |-> 2, o |-> <<0, 1, 2, 0>>],
+            [t |-> "N", i |-> 1, name |-> Name1],
+            [t |-> "C", x |-> <<<<99, NL>>>>, gl |-> 1, gc |-> 4, o |-> <<0, 2, 0, 1>>]>>,
+   end |-> <<2, 0>>]
+
+C06Inners ==
+  {SmsA, SmsB, SmsC, SmsD, SmsDupNames, SmsIdent, LazyChild, Orig(<<cA, cA, cSC, NL, cA>>),
+   CC(<<SmsB, Orig(<<cA, NL>>)>>), CC(<<Raw("str", <<98>>), SmsIdent>>)}
+
+ReplN(s, e, c, n) == [s |-> s, e |-> e, c |-> c, n |-> n, enf |-> 1, api |-> "replace"]
+C06Contents == {<<>>, <<cX>>, <<cX, NL, cX>>}
+C06Repls1(n) ==
+  {<<ReplN(p[1], p[2], c, nm)>> :
+     p \in {q \in (0..(n + 1)) \X (0..(n + 1)) : q[1] <= q[2]},
+     c \in C06Contents, nm \in {<<>>, <<NameRn>>}}
+C06ReplsSlim(n) ==
+  {<<ReplN(p[1], p[2], <<cX>>, nm)>> :
+     p \in {<<0, 0>>, <<0, 1>>, <<1, 2>>, <<1, 1>>, <<2, n>>, <<n, n + 1>>, <<3, 4>>},
+     nm \in {<<>>, <<NameRn>>}}
+
+ReplaceInnerProg(inner, repls) ==
+  Prog(<<[op |-> "build", dst |-> 1, tree |-> inner],
+         [op |-> "stream", r |-> 1, columns |-> TRUE, final |-> FALSE],
+         [op |-> "stream", r |-> 1, columns |-> TRUE, final |-> FALSE],
+         [op |-> "source", r |-> 1],
+         [op |-> "build", dst |-> 0,
+          tree |-> Replace([k |-> "reg", r |-> 1], repls)],
+         [op |-> "source", r |-> 0],
+         [op |-> "stream", r |-> 0, columns |-> TRUE, final |-> FALSE],
+         [op |-> "map", r |-> 0, columns |-> TRUE],
+         [op |-> "law", law |-> "replace_inner", r |-> 0, inner |-> 1]>>)
+
+InnerLen(t) ==
+  IF t.k = "concat" THEN Len(t.ch[1].b) + Len(t.ch[2].b) ELSE Len(t.b)
+
+C06RScope ==
+  IF Scope # "c06r" THEN {} ELSE
+  UNION {{ReplaceInnerProg(x, r) : r \in C06Repls1(InnerLen(x))} : x \in C06Inners}
+  \cup UNION {{ReplaceInnerProg(x, r1 \o r2) :
+                 r1 \in C06ReplsSlim(InnerLen(x)), r2 \in C06ReplsSlim(InnerLen(x))} :
+               x \in C06Inners}
+
 (* size of buffer() is not known to the generator; writers are placed at    *)
 (* every budget up to a bound that covers these small trees                 *)
 ProgSet ==
@@ -323,6 +383,7 @@ ProgSet ==
     [] Scope = "c05" -> Hist2 \cup Hist3
     [] Scope = "c13" -> LawScope
     [] Scope = "c06" -> C06Scope
+    [] Scope = "c06r" -> C06RScope
     [] Scope = "c07" -> {Prog(<<Build(t)>> \o ViewObs(9)) : t \in ViewTrees}
     [] OTHER -> {}
 
